@@ -27,6 +27,7 @@ Formatting a value (f-string field, str.format argument) is assumed not to chang
 """
 import ast
 import copy
+import re
 import json
 import os
 
@@ -1167,7 +1168,7 @@ class Normaliser(object):
 
     def run(self):
         if self.inline_only:
-            self._defs_to_lambdas = self._ifs_to_conditional_expressions = self._outline = self._merge_conditional_calls = self._split_parallel_assignments = self._for_else_to_early_exit = self._scalarise_private_namedtuples = self._forward_pure_loads = self._spread_and_getattr = lambda: None
+            self._defs_to_lambdas = self._ifs_to_conditional_expressions = self._outline = self._merge_conditional_calls = self._split_parallel_assignments = self._for_else_to_early_exit = self._scalarise_private_namedtuples = self._forward_pure_loads = self._spread_and_getattr = self._alias_of_renamed_def = lambda: None
         self._defs_to_lambdas()
         if self.helpers and not self.inline_only:
             self._collect_refresh()       # helper bodies were captured before nested defs became lambdas
@@ -1195,6 +1196,7 @@ class Normaliser(object):
         self._propagate_temporaries()
         self._scalarise_private_namedtuples()
         self._propagate_temporaries()
+        self._alias_of_renamed_def()
         self._spread_and_getattr()
         self._forward_pure_loads()
         self._split_parallel_assignments()
@@ -1560,6 +1562,30 @@ class Normaliser(object):
                 return c
         for t in self.trees.values():
             G().visit(t)
+
+    def _alias_of_renamed_def(self):
+        """`def f__iN(..): ..` followed by `x = f__iN` (left by inlining a helper that returns a nested function): the function is x"""
+        pat = re.compile(r'__i\d+$')
+        for t in self.trees.values():
+            for fn in [n for n in ast.walk(t) if isinstance(n, ast.FunctionDef)]:
+                for holder in ast.walk(fn):
+                    for fld in ('body', 'orelse', 'finalbody'):
+                        b = getattr(holder, fld, None)
+                        if not (isinstance(b, list) and b and isinstance(b[0], ast.stmt)):
+                            continue
+                        for d in [x for x in b if isinstance(x, ast.FunctionDef) and pat.search(x.name)]:
+                            uses = [x for x in ast.walk(fn) if isinstance(x, ast.Name) and x.id == d.name]
+                            al = [x for x in b if isinstance(x, ast.Assign) and len(x.targets) == 1 and isinstance(x.targets[0], ast.Name) and
+                                  isinstance(x.value, ast.Name) and x.value.id == d.name]
+                            if len(uses) != 1 or len(al) != 1:
+                                continue
+                            new = al[0].targets[0].id
+                            other_stores = [x for x in ast.walk(fn) if isinstance(x, ast.Name) and x.id == new and isinstance(x.ctx, ast.Store) and x is not al[0].targets[0]]
+                            if other_stores or any(isinstance(x, ast.FunctionDef) and x.name == new for x in ast.walk(fn)):
+                                continue
+                            d.name = new
+                            b.remove(al[0])
+                            self.inlined.append((new, fn.name, 'def-alias'))
 
     def _merge_conditional_calls(self):
         """`f(args) if c else g(args)` (same argument expressions) -> `(f if c else g)(args)`: test, callee, arguments are evaluated in
